@@ -1,6 +1,6 @@
+import datetime
 import re
 
-import dateutil.parser
 from tlz.dicttoolz import merge
 from tlz.functoolz import curry
 from tlz.functoolz import identity as passthrough
@@ -91,7 +91,7 @@ translations = {
     "processing_option": curry(lookup, processing_options),
     "map_projection": curry(lookup, map_projections),
     "orbit_direction": curry(lookup, orbit_directions),
-    "date": curry(dateutil.parser.parse, yearfirst=True, dayfirst=False),
+    "date": lambda value: datetime.datetime.strptime(value, "%y%m%d"),
     "mission_name": passthrough,
     "orbit_accumulation": passthrough,
     "scene_frame": passthrough,
